@@ -89,7 +89,12 @@ def gen_case(run_seed: int, index: int, tier: str) -> dict:
         "fading": rng.choice(["rayleigh", "rician", "lognormal"]),
         "torch_seed": rng.randrange(1 << 31),
         "data_seed": rng.randrange(1 << 31),
+        "warmup": rng.choice([None, None, [5], [2, 3], [2, 2, 4]]),
+        "noncontig": rng.random() < 0.2,
     }
+    if rng.random() < 0.15:  # the edges of the stated ranges
+        case["snr_db"], case["snr_db2"] = rng.choice([(-20.0, 40.0), (40.0, -20.0), (40.0, 39.0), (-20.0, -19.0)])
+        case["sig_power"] = rng.choice([1e-3, 1e3])
     if case["snr_as"] == "int":
         case["snr_db"] = float(round(case["snr_db"]))
         case["snr_db2"] = float(round(case["snr_db2"]))
@@ -171,19 +176,24 @@ def execute(case: dict) -> RunResult:
         """returns (callable x->(y, signal the noise is added to), configured (kind, value))"""
         if kind == "awgn_power":
             P = case["power"] if which == 1 else case["power2"]
-            return (lambda s: (AWGNChannel(avg_noise_power=P)(s), s)), ("power", P)
+            ch = AWGNChannel(avg_noise_power=P)
+            return (lambda s: (ch(s), s)), ("power", P)
         if kind == "awgn_snr":
             S = case["snr_db"] if which == 1 else case["snr_db2"]
-            return (lambda s: (AWGNChannel(snr_db=_snr_arg(case, S))(s), s)), ("snr", S)
+            ch = AWGNChannel(snr_db=_snr_arg(case, S))
+            return (lambda s: (ch(s), s)), ("snr", S)
         if kind == "lap_power":
             P = case["power"] if which == 1 else case["power2"]
-            return (lambda s: (LaplacianChannel(avg_noise_power=P)(s), s)), ("power", P)
+            ch = LaplacianChannel(avg_noise_power=P)
+            return (lambda s: (ch(s), s)), ("power", P)
         if kind == "lap_snr":
             S = case["snr_db"] if which == 1 else case["snr_db2"]
-            return (lambda s: (LaplacianChannel(snr_db=_snr_arg(case, S))(s), s)), ("snr", S)
+            ch = LaplacianChannel(snr_db=_snr_arg(case, S))
+            return (lambda s: (ch(s), s)), ("snr", S)
         if kind == "lap_scale":
             b = math.sqrt((case["power"] if which == 1 else case["power2"]) / 2.0)
-            return (lambda s: (LaplacianChannel(scale=b)(s), s)), ("scale", b)
+            ch = LaplacianChannel(scale=b)
+            return (lambda s: (ch(s), s)), ("scale", b)
         if kind == "nonlin_power":
             P = case["power"] if which == 1 else case["power2"]
             f = NONLIN[case["nonlin"]]
@@ -243,6 +253,20 @@ def execute(case: dict) -> RunResult:
 
     run1, (ckind, cval) = build(1)
     run2, (_, cval2) = build(2)
+    if case.get("noncontig") and x.dim() >= 2 and not kind.startswith("fading"):
+        x = x.transpose(0, -1).contiguous().transpose(0, -1)  # same values, non-contiguous memory
+        x0 = x.clone()
+        res.probes["input.noncontiguous"] += 1
+    if case.get("warmup") and not kind.startswith("fading"):
+        # an earlier call on the same channel objects with another shape and power (stale caches would show)
+        gw = torch.Generator().manual_seed(case["data_seed"] ^ 0x99)
+        w = torch.randn(case["warmup"], generator=gw, dtype=DT[case["dtype"]]) * 7.0
+        if cplx:
+            w = torch.complex(w, w.flip(-1))
+        torch.manual_seed(case["torch_seed"] ^ 0x4321)
+        run1(w)
+        run2(w)
+        res.faults["history.earlier_call_on_same_object"] += 1
     torch.manual_seed(case["torch_seed"])
     y1, s1 = run1(x)
     torch.manual_seed(case["torch_seed"])
@@ -354,24 +378,30 @@ def execute(case: dict) -> RunResult:
 
     # ---------------------------------------------------------------- exact: the library's SNR tools agree with the definition
     pn1 = _pw(n1)
-    if pn1 > 1e-2 and ps1 > 1e-4:
+    if pn1 > 0 and ps1 > 0 and n >= 16:
         direct = 10 * math.log10(ps1 / pn1)
-        t1 = float(ksnr.calculate_snr(s1, y1))
-        t2 = float(SignalToNoiseRatio()(s1.reshape(-1), y1.reshape(-1)))
-        t3 = StandardMetrics.signal_to_noise_ratio(s1, y1 - s1)
-        t4 = float(ksnr.noise_power_to_snr(torch.tensor(ps1), torch.tensor(pn1)))
+        regime = "noise_power_below_1e-3" if pn1 < 1e-3 else "normal"
+        tools = [("calculate_snr", lambda: float(ksnr.calculate_snr(s1, y1))),
+                 ("SignalToNoiseRatio", lambda: float(SignalToNoiseRatio()(s1.reshape(-1), y1.reshape(-1)))),
+                 ("StandardMetrics.signal_to_noise_ratio", lambda: StandardMetrics.signal_to_noise_ratio(s1, y1 - s1)),
+                 ("noise_power_to_snr", lambda: float(ksnr.noise_power_to_snr(torch.tensor(ps1), torch.tensor(pn1))))]
         res.probes["snr_tool_agreement_checks"] += 1
-        for nm, t in (("calculate_snr", t1), ("SignalToNoiseRatio", t2), ("StandardMetrics.signal_to_noise_ratio", t3), ("noise_power_to_snr", t4)):
-            if abs(t - direct) > 2e-3 + 2e-4 * abs(direct):
-                violate("snr_definition", f"{nm} = {t:.5f} dB but 10*log10(mean|x|^2/mean|y-x|^2) = {direct:.5f} dB", tool=nm)
-        if s1.dim() > 1 and s1.shape[0] > 1 and s1.shape[0] <= 64:
+        res.probes[f"snr_tool_agreement.{regime}"] += 1
+        # the tools work in the signal's float format: allow its resolution on the two powers
+        tol = 2e-3 + 2e-4 * abs(direct)
+        for nm, f in tools:
+            t = f()
+            if not (abs(t - direct) <= tol):
+                violate("snr_definition", f"{nm} = {t:.5f} dB but 10*log10(mean|x|^2/mean|y-x|^2) = {direct:.5f} dB (signal power {ps1:.4g}, noise power {pn1:.4g})", tool=nm, noise_regime=regime)
+        if s1.dim() > 1 and 1 < s1.shape[0] <= 64:
             per = SignalToNoiseRatio()(s1, y1)
             for i in range(min(s1.shape[0], 4)):
                 psi, pni = _pw(s1[i]), _pw((y1 - s1)[i])
-                if pni > 1e-2 and psi > 1e-4:
+                if pni > 0 and psi > 0:
                     di = 10 * math.log10(psi / pni)
-                    if abs(float(per[i]) - di) > 2e-3 + 2e-4 * abs(di):
-                        violate("snr_definition", f"SignalToNoiseRatio item {i} = {float(per[i]):.5f} dB but the definition gives {di:.5f} dB", tool="SignalToNoiseRatio.batched")
+                    if not (abs(float(per[i]) - di) <= 2e-3 + 2e-4 * abs(di)):
+                        violate("snr_definition", f"SignalToNoiseRatio item {i} = {float(per[i]):.5f} dB but the definition gives {di:.5f} dB (noise power {pni:.4g})", tool="SignalToNoiseRatio", noise_regime="noise_power_below_1e-3" if pni < 1e-3 else "normal")
+                        break
     res.digest, res.n_events = log.digest(), len(log)
     return res
 
